@@ -143,7 +143,7 @@ private:
 
     void read_row( byte_t* dst )
     {
-        this->_io_dev.read( dst, this->_scanline_length );
+        this->_io_dev.read_all( dst, this->_scanline_length );
     }
 };
 
